@@ -155,7 +155,7 @@ impl Prop for C14 {
 			schema = ast::gen_schema(rng, cfg);
 		}
 		let env = Env::build(&schema);
-		let vcfg = ValCfg { max_len: 1 + rng.usize(4), max_depth: 4, budget: 10 + rng.below(40) as i32 };
+		let vcfg = ValCfg { max_len: 1 + rng.usize(4), max_depth: 4, budget: 10 + rng.below(40) as i32, str_boost: 0 };
 		let allow_slow = rng.bool();
 		let n = 1 + rng.usize(6);
 		let mut attempts = vec![];
